@@ -171,3 +171,91 @@ pub fn rt() -> tokio::runtime::Runtime {
 pub fn batch_cfg_name(c: &BatchRequestConfig) -> String {
 	format!("{c:?}")
 }
+
+// ---------------------------------------------------------------------------------------------
+// SRV-MEM: the same TowerService served over an in-memory duplex by `serve_with_graceful_shutdown`,
+// with a raw soketto client as the peer.
+
+use tokio_util::compat::{Compat, TokioAsyncReadCompatExt};
+
+pub type StdSvc = jsonrpsee_server::TowerService<tower::layer::util::Identity, tower::layer::util::Identity>;
+pub type StdSvcBuilder = jsonrpsee_server::TowerServiceBuilder<tower::layer::util::Identity, tower::layer::util::Identity>;
+
+pub struct WsConn {
+	pub sender: soketto::Sender<Compat<tokio::io::DuplexStream>>,
+	pub receiver: soketto::Receiver<Compat<tokio::io::DuplexStream>>,
+	pub serve: tokio::task::JoinHandle<Result<(), String>>,
+}
+
+/// Serve `svc` on one half of a duplex and perform the WebSocket handshake on the other.
+pub async fn ws_connect(svc: StdSvc, stop: StopHandle) -> Result<WsConn, String> {
+	let (a, b) = tokio::io::duplex(1 << 20);
+	let serve = tokio::spawn(async move {
+		jsonrpsee_server::serve_with_graceful_shutdown(a, svc, stop.shutdown()).await.map_err(|e| e.to_string())
+	});
+	let mut client = soketto::handshake::Client::new(b.compat(), "localhost", "/");
+	match client.handshake().await.map_err(|e| format!("handshake: {e}"))? {
+		soketto::handshake::ServerResponse::Accepted { .. } => {}
+		other => return Err(format!("handshake refused: {other:?}")),
+	}
+	let mut builder = client.into_builder();
+	builder.set_max_message_size(64 << 20);
+	let (sender, receiver) = builder.finish();
+	Ok(WsConn { sender, receiver, serve })
+}
+
+impl WsConn {
+	/// Send one message: as a text frame when the bytes are UTF-8, else as a binary frame.
+	pub async fn send(&mut self, msg: &[u8]) -> Result<(), String> {
+		match std::str::from_utf8(msg) {
+			Ok(s) => self.sender.send_text(s).await.map_err(|e| e.to_string())?,
+			Err(_) => self.sender.send_binary(msg).await.map_err(|e| e.to_string())?,
+		}
+		self.sender.flush().await.map_err(|e| e.to_string())
+	}
+
+	/// Next data frame; None when the connection is closed.
+	pub async fn recv(&mut self) -> Option<Vec<u8>> {
+		let mut buf = Vec::new();
+		loop {
+			buf.clear();
+			match self.receiver.receive(&mut buf).await {
+				Ok(soketto::Incoming::Data(_)) => return Some(buf),
+				Ok(soketto::Incoming::Pong(_)) => continue,
+				Ok(soketto::Incoming::Closed(_)) => return None,
+				Err(_) => return None,
+			}
+		}
+	}
+}
+
+pub struct WsServer {
+	pub builder: StdSvcBuilder,
+	pub stop: StopHandle,
+	pub handle: ServerHandle,
+	pub log: InvLog,
+	pub methods: Methods,
+}
+
+pub fn ws_server(cfg: ServerConfig) -> WsServer {
+	let log: InvLog = Arc::new(Mutex::new(Vec::new()));
+	let (stop, handle) = stop_channel();
+	let builder = Server::builder().set_config(cfg).to_service_builder();
+	let methods = std_module(log.clone());
+	WsServer { builder, stop, handle, log, methods }
+}
+
+impl WsServer {
+	pub fn svc(&self) -> StdSvc {
+		self.builder.clone().build(self.methods.clone(), self.stop.clone())
+	}
+}
+
+/// Deterministic subscription ids for harnesses.
+#[derive(Debug)]
+pub struct CounterIds(pub std::sync::atomic::AtomicU64);
+impl jsonrpsee_server::IdProvider for CounterIds {
+	fn next_id(&self) -> jsonrpsee_types::SubscriptionId<'static> {
+		jsonrpsee_types::SubscriptionId::Num(self.0.fetch_add(1, std::sync::atomic::Ordering::SeqCst))
+	}
+}
